@@ -298,6 +298,57 @@ theorem mdae_univariate_is_median (t p : Col) (mo : MO) (out : Out)
   simp only [absErrs, List.length_zipWith] at this
   omega
 
+/-- The four direct median metrics without horizon weights return, per column, `np.median` of the textbook errors
+(|a−f|, (a−f)², percentage errors and their squares — the latter two while no actual is closer to 0 than eps);
+with `median_reducer_is_median` that value is a median in the textbook sense. -/
+theorem median_metrics_eq_spec (eps : Rat) (he : 0 < eps) (yt yp : Mat) (mo : MO) (sym sqrt : Bool) (out : Out) :
+    (medianAbsoluteError yt yp none mo = .ok out →
+      out.qs = List.zipWith (fun t p => median (Spec.Metrics.absErr t p)) yt yp) ∧
+    (medianSquaredError yt yp none mo sqrt = .ok out →
+      out.qs = List.zipWith (fun t p => median (Spec.Metrics.sqErr t p)) yt yp) ∧
+    ((∀ t ∈ yt, ∀ a ∈ t, eps ≤ |a|) → medianAbsolutePercentageError eps yt yp none mo sym = .ok out →
+      out.qs = List.zipWith (fun t p => median (Spec.Metrics.pctErrs sym t p)) yt yp) ∧
+    ((∀ t ∈ yt, ∀ a ∈ t, eps ≤ |a|) → medianSquaredPercentageError eps yt yp none mo sqrt sym = .ok out →
+      out.qs = List.zipWith (fun t p => median ((Spec.Metrics.pctErrs sym t p).map (· ^ 2))) yt yp) := by
+  refine ⟨fun h => ?_, fun h => ?_, fun hg h => ?_, fun hg h => ?_⟩
+  · rw [(finish_ok (mdae_iff.mp h).2.2).1]; congr 1; funext t p
+    simp only [medianW]; rw [absErrs_eq_spec]
+  · rw [(finish_ok (mdse_iff.mp h).2.2).1]; congr 1; funext t p
+    simp only [medianW]; rw [sqErrs'_eq_spec]
+  · rw [(finish_ok (mdape_iff.mp h).2.2).1]
+    apply zipWith_congr_mem
+    intro t ht p _
+    simp only [mdapeCol]; rw [pctCol_abs_eq_spec eps he sym t p (hg t ht)]
+  · rw [(finish_ok (mdspe_iff.mp h).2.2).1]
+    apply zipWith_congr_mem
+    intro t ht p _
+    simp only [medianW]; rw [pctCol_sqr_eq_spec eps he sym t p (hg t ht)]
+
+/-- univariate MdASE, MdSSE / root MdSSE (`raw_values`): (weighted) median error over the plain median of the in-sample
+seasonal-naive errors, while the latter is at least eps -/
+theorem median_scaled_univariate_eq_spec (eps : Rat) (t p c : Col) (ix : Option (Int × Int)) (sp : Int)
+    (hw : Option (List Rat)) (sqrt : Bool) (out : Out) (h0 : 0 < sp) (h1 : sp < c.length) :
+    (eps ≤ median ((Spec.Metrics.naiveErr sp.toNat c).map (|·|)) →
+      medianAbsoluteScaledError eps [t] [p] (.arr [c]) ix sp hw .raw = .ok out →
+      out = .raw 1 [medianW hw (Spec.Metrics.absErr t p) / median ((Spec.Metrics.naiveErr sp.toNat c).map (|·|))]) ∧
+    (eps ≤ median ((Spec.Metrics.naiveErr sp.toNat c).map (· ^ 2)) →
+      medianSquaredScaledError eps [t] [p] (.arr [c]) ix sp hw .raw sqrt = .ok out →
+      out = .raw (rootDeg sqrt 1)
+        [medianW hw (Spec.Metrics.sqErr t p) / median ((Spec.Metrics.naiveErr sp.toNat c).map (· ^ 2))]) :=
+  ⟨fun hg h => mdase_univariate_eq_spec h0 h1 hg h, fun hg h => mdsse_univariate_eq_spec h0 h1 hg h⟩
+
+/-- univariate relative loss (`raw_values`) with MAE / MSE as loss function: loss of the forecast over the loss of the
+benchmark forecast, while the latter is at least eps -/
+theorem relative_loss_univariate_eq_spec (eps : Rat) (t p b : Col) (hw : Option (List Rat)) (out : Out) :
+    (eps ≤ MAE hw t b → relativeLoss eps [t] [p] [b] .mae hw .raw = .ok out →
+      out = .raw 1 [MAE hw t p / MAE hw t b]) ∧
+    (eps ≤ MSE hw t b → relativeLoss eps [t] [p] [b] .mse hw .raw = .ok out →
+      out = .raw 1 [MSE hw t p / MSE hw t b]) :=
+  ⟨fun hg h => relloss_mae_univariate_eq_spec hg h, fun hg h => relloss_mse_univariate_eq_spec hg h⟩
+
+example : relativeLoss EPS [[1, 2, 3]] [[3/2, 2, 2]] [[2, 1, 4]] .mae (some [1, 1, 2]) .raw
+    = .ok (.raw 1 [5/8]) := by decide +kernel
+
 /-- the weighted percentile (median metrics with `horizon_weight`) returns one of the data values, hence stays within
 any bounds of the data; the weighted and unweighted medians are homogeneous for positive factors -/
 theorem weighted_median_laws (ws xs : List Rat) (c : Rat) (hc : 0 < c) :
@@ -430,6 +481,24 @@ theorem gm_eq_spec_partial (eps : Rat) (yt yp yb : Mat) (mo : MO) (sqrt : Bool) 
     obtain ⟨_, _, _, kq, h1, h2⟩ := gmrse_iff.mp h
     rw [gmCols_none] at h1; cases h1
     exact ⟨(finish_ok h2).2, (finish_ok h2).1⟩
+
+/-- … and for a univariate series whose benchmark stays at least eps away from the truth, the factors are the floored
+textbook relative errors: the reported g satisfies g^n = Π floor(|(a−f)/(a−f*)|). -/
+theorem gmrae_univariate_eq_spec_partial (eps : Rat) (t p b : Col) (mo : MO) (out : Out)
+    (hg : ∀ x ∈ List.zipWith (fun a g => |a - g|) t b, eps ≤ x)
+    (h : geometricMeanRelativeAbsoluteError eps [t] [p] [b] none mo = .ok out) :
+    out.deg = t.length ∧
+    out.qs = [prod ((Spec.Metrics.relErr t p b).map (fun e => floorEps eps |e|))] := by
+  obtain ⟨_, _, _, kq, h1, h2⟩ := gmrae_iff.mp h
+  rw [gmCols_none] at h1; cases h1
+  refine ⟨(finish_ok h2).2, ?_⟩
+  rw [(finish_ok h2).1]
+  simp only [relCols]
+  rw [relCol_eq_spec eps t p b hg]
+  congr 2
+  apply List.map_congr_left
+  intro e _
+  rw [absR_eq_abs]
 
 /-- negation with horizon weights (numpy broadcasts the (n,) weights against the (n,k) log-errors along the column
 axis): a univariate series yields n values instead of 1; 3 steps × 2 columns raise ValueError; and at a perfect
